@@ -21,18 +21,6 @@ func allowed(ci bool, opt int, env string) (create, rewrite, clean bool) {
 	return true, env == "true", clean
 }
 
-func cfgWithOpt(dir string, opt int) *Config { return cfgWithOptName(dir, opt, "f") }
-
-func cfgWithOptName(dir string, opt int, filename string) *Config {
-	switch opt {
-	case 1:
-		return WithConfig(Dir(dir), Filename(filename), Update(true))
-	case 2:
-		return WithConfig(Dir(dir), Filename(filename), Update(false))
-	}
-	return WithConfig(Dir(dir), Filename(filename))
-}
-
 // H_C05_match: whether a Match* call may create or rewrite is decided solely
 // by (CI, Update option, UPDATE_SNAPS), for all five entry points and the
 // three entry states.
